@@ -39,7 +39,8 @@ def getCls (j : Json) : Cls :=
   { repr := getStr j "repr", ns := getStr j "ns", tn := getStr j "tn", kind := getKind (getStr j "kind"),
     ext := optNat j "ext", fields := (getArr j "fields").toList.map getField, subName := optStr j "subName",
     subNs := getSubNs j, wsdlPart := optStr j "wsdlPart",
-    enums := strList ((j.getObjVal? "enums").toOption.getD (.arr #[])) }
+    enums := strList ((j.getObjVal? "enums").toOption.getD (.arr #[])),
+    mixinFirst := getBool j "mixinFirst", mixinLast := getBool j "mixinLast" }
 
 def getMeth (j : Json) : Meth :=
   { name := getStr j "name", opName := getStr j "opName", inMsg := getNat j "inMsg", outMsg := getNat j "outMsg",
@@ -56,9 +57,19 @@ def pair2 {α β} (f : Json → α) (g : Json → β) (j : Json) : Option (α ×
 def jstr (j : Json) : String := match j with | .str s => s | _ => ""
 def jnat (j : Json) : Nat := j.getNat?.toOption.getD 0
 
+/-- a prefix string: `s<digits>` (canonical decimal) is a generated-style prefix -/
+def parsePref (s : String) : Pref :=
+  match s.toList with
+  | 's' :: ds =>
+    if !ds.isEmpty && ds.all Char.isDigit && (ds.length == 1 || ds.head? != some '0') then
+      .gen ((String.ofList ds).toNat?.getD 0)
+    else .named s
+  | _ => .named s
+
 def getIState (j : Json) : IState :=
   { tns := getStr j "tns", name := getStr j "name",
     staticNs := (getArr j "staticNs").toList.filterMap (pair2 jstr jstr),
+    pins := (getArr j "pins").toList.filterMap (pair2 (fun x => parsePref (jstr x)) jstr),
     classes := (getArr j "classes").toList.map getCls,
     deps := (getArr j "deps").toList.filterMap (pair2 jnat natList),
     imports := (getArr j "imports").toList.filterMap (pair2 jstr strList),
@@ -124,7 +135,7 @@ def natsJson (l : List Nat) : Json := Json.arr (l.map (fun (n : Nat) => (n : Jso
 def step (j : Json) : Json :=
   match getStr j "op" with
   | "gen" =>
-    let I := (getIState j).addMethodFaults F07
+    let I := ((getIState j).resolveHandlers F07).addMethodFaults F07
     let e := getEnum j
     let tiers := match topo F07 e I.reprKey I.deps with
       | .ok ts => arrJson natsJson ts
